@@ -100,9 +100,16 @@ Outcome(e, T) ==
 (* ambiguous between `foo` and `foo.bin`; [T2] only pins the form with PATH. *)
 (* Both results are permitted for that one class.                            *)
 (***************************************************************************)
+\* [CMD] "PATH: path to the target relative to the root meson.build file" is the directory of the defining
+\* meson.build ("a target specified in the root meson.build is ./").  Read as "where the target file is" it is the
+\* directory of the output; the two differ only with build_subdir: (since 1.10).  The defining directory decides;
+\* when nothing is found that way, the answer for the output directory is permitted as well.
+ByOutDir(T) == { [t EXCEPT !.d = t.od] : t \in T }
+
 Permitted(e, T) ==
     {Outcome(e, T)} \cup
-    (IF e.p = "" /\ e.ty = "" /\ M(e, T) # Sel(e, T) THEN {Out("ambiguous", Ids(M(e, T)), "")} ELSE {})
+    (IF e.p = "" /\ e.ty = "" /\ M(e, T) # Sel(e, T) THEN {Out("ambiguous", Ids(M(e, T)), "")} ELSE {}) \cup
+    (IF e.p # "" /\ Outcome(e, T).k = "notfound" THEN {Outcome(e, ByOutDir(T))} ELSE {})
 
 (***************************************************************************)
 (* Second formulation, shaped like a lookup over the introspection *list*    *)
@@ -138,7 +145,8 @@ ResolveList(e, L) ==
 (***************************************************************************)
 Operands(t) == IF t.ty \in RunLike THEN <<JoinDots(t.n)>> ELSE t.o
 
-TargetOf(e, T) == CHOOSE t \in T : t.id \in Outcome(e, T).ids
+\* the target of an expression that resolves (by Outcome, or by the permitted reading of PATH when Outcome finds nothing)
+TargetOf(e, T) == CHOOSE t \in T : \E o \in Permitted(e, T) : o.k = "ok" /\ t.id \in o.ids
 
 RECURSIVE OperandsOfAll(_, _)
 OperandsOfAll(X, T) == IF X = <<>> THEN <<>> ELSE Operands(TargetOf(Head(X), T)) \o OperandsOfAll(Tail(X), T)
